@@ -34,7 +34,20 @@ class _RandomProxy(object):
         population = list(population)
         idx = _random.sample(range(len(population)), k)   # same index choices as sampling the list itself
         self._rec.samples.append(idx)
+        self._rec.events.append(2)
         return [population[i] for i in idx]
+
+    def getstate(self):
+        self._rec.events.append(0)
+        return _random.getstate()
+
+    def seed(self, n=None):
+        self._rec.events.append(1)
+        return _random.seed(n)
+
+    def setstate(self, st):
+        self._rec.events.append(3)
+        return _random.setstate(st)
 
 
 class Recorder(object):
@@ -42,6 +55,7 @@ class Recorder(object):
         self.matches = {}
         self.groups = {}
         self.samples = []
+        self.events = []          # calls on the random module: 0 getstate, 1 seed, 2 sample, 3 setstate
         self.rex_lists = []
 
 
@@ -132,3 +146,153 @@ def decode_model(out):
 def impl_view(x):
     return {'none': x.results is None, 'rex': list(x.results.rex) if x.results else [],
             'strings': list(x.examples.strings), 'freqs': [int(f) for f in x.examples.freqs]}
+
+
+# ---------------------------------------------------------------- shared case generation / runs
+
+def gen_case(rng, R):
+    """One extraction case: (form, arg, opts, size_spec, seed)."""
+    ex = R.gen_examples(rng)
+    opts = R.gen_opts(rng)
+    size = R.gen_size(rng)
+    if size:
+        size['max_punc_in_group'] = rng.choice([0, 1, 2, 5])
+        size['max_strings_in_group'] = rng.choice([1, 2, 10])
+    seed = rng.choice([None, None, 0, 3, 12345])
+    form = rng.choice(['list', 'list', 'dict'])
+    if form == 'dict':
+        cnt = {}
+        for s in ex:
+            cnt[s] = cnt.get(s, 0) + 1
+        if rng.random() < 0.3:
+            cnt['zero-count'] = 0
+        arg = cnt
+    else:
+        arg = list(ex)
+        if rng.random() < 0.2:
+            arg.insert(rng.randint(0, len(arg)), None)
+    return form, arg, opts, size, seed
+
+
+def compare_with_model(ctx, cases, layer='extractor'):
+    """cases: list of (case_dict, arg, opts, size, x, rec). Runs the extracted model on the recorded
+    oracle tables and reports disagreements. Returns the decoded model outputs."""
+    if not ctx.model_ok or not cases:
+        return []
+    payloads = [model_payload(arg, opts, size, rec) for (_, arg, opts, size, x, rec) in cases]
+    outs = ctx.model.call_many(16, payloads)
+    decoded = []
+    for (case, arg, opts, size, x, rec), o in zip(cases, outs):
+        m = decode_model(o)
+        decoded.append(m)
+        iv = impl_view(x)
+        ctx.cov['traces_validated_against_impl'] += 1
+        if 'err' in m:
+            ctx.mismatch(layer, case, m, iv)
+        elif any(m[k] != iv[k] for k in iv):
+            ctx.mismatch(layer, case, {k: m[k] for k in iv}, iv)
+    return decoded
+
+
+# ---------------------------------------------------------------- character-level sweeps
+
+CAT_CODES = 'AaLḸBbMṂDhHXNnCḈ .*?'
+EXTRAS = ['', '_', '.', '-', '_.', '_-', '.-', '_.-']
+
+
+def sweep_chars(rng, full):
+    if full:
+        return [chr(c) for c in range(0x110000) if not (0xD800 <= c <= 0xDFFF)]
+    import unicodedata   # noqa
+    cps = set(range(0, 0x300))
+    # every boundary of the interpreter's tables, +-1
+    for pred in (str.isalnum, str.isdecimal, str.isdigit, str.isspace):
+        prev = False
+        for c in range(0x110000):
+            if 0xD800 <= c <= 0xDFFF:
+                continue
+            cur = pred(chr(c))
+            if cur != prev:
+                cps.update((c - 1, c, c + 1))
+                prev = cur
+    cps.update(rng.randrange(0x110000) for _ in range(3000))
+    return [chr(c) for c in sorted(cps) if 0 <= c < 0x110000 and not (0xD800 <= c <= 0xDFFF)]
+
+
+_SWEEP_CACHE = {}
+
+
+def char_sweeps(ctx, full=False):
+    """Model category semantics / regex text / coarse and fine classification vs the real Categories and re."""
+    import lib
+    if not ctx.model_ok:
+        return
+    chars = _SWEEP_CACHE.get(full)
+    if chars is None:
+        chars = _SWEEP_CACHE[full] = sweep_chars(ctx.rng, full)
+    text = ''.join(chars)
+    n = 0
+    for extras in EXTRAS:
+        for dialect, out in ((None, False), ('portable', True), ('grep', True)):
+            cats = rx.Categories(extras or None, dialect=dialect)
+            mre = ctx.model.call(19, extras)
+            mtext = {chr(r[0]): (lib.dopt(r[1], lib.dstr), lib.dopt(r[2], lib.dstr)) for r in mre}
+            for code in CAT_CODES:
+                try:
+                    cat = cats[code]
+                except KeyError:
+                    cat = None
+                mt = mtext[code][1 if out else 0]
+                it = cat.re_string if cat is not None else None
+                if mt != it:
+                    ctx.mismatch('category-regex-text', {'extras': extras, 'dialect': dialect, 'code': code}, mt, it)
+                    continue
+                if cat is None:
+                    continue
+                single = _re.compile('^%s$' % cat.re_string, rx.RE_FLAGS)
+                want = [single.match(ch) is not None for ch in chars]
+                got = [bool(b) for b in ctx.model.call(17, [extras, out, ord(code), text])]
+                n += len(chars)
+                if got != want:
+                    bad = [hex(ord(ch)) for ch, g, w in zip(chars, got, want) if g != w][:8]
+                    ctx.mismatch('category-semantics', {'extras': extras, 'dialect': dialect, 'code': code,
+                                                        'first_bad_code_points': bad}, 'cat_sem', 're.match')
+        x = rx.Extractor(['a_.-'], extra_letters=extras or None)
+        coarse, fine = ctx.model.call(18, [extras, text])
+        want_c = [ord(x.coarse_classify_char(ch)) for ch in chars]
+        if list(coarse) != want_c:
+            bad = [hex(ord(ch)) for ch, g, w in zip(chars, coarse, want_c) if g != w][:8]
+            ctx.mismatch('coarse-classification', {'extras': extras, 'first_bad_code_points': bad}, 'coarse_char',
+                         'coarse_classify_char')
+        alnums = [(i, ch) for i, ch in enumerate(chars) if want_c[i] == ord(rx.UNIC)]
+        want_f = [ord(x.fine_class(ch)) for _, ch in alnums]
+        got_f = [fine[i] for i, _ in alnums]
+        if got_f != want_f:
+            ctx.mismatch('fine-classification', {'extras': extras}, 'fine_class', 'Extractor.fine_class')
+        n += 2 * len(chars)
+    ctx.cov['evaluations'] += n
+    ctx.extra['char_sweep'] = {'code_points': len(chars), 'full': full, 'comparisons': n}
+
+
+def escape_sweep(ctx, n=400):
+    """escape / escaped_bracket of the model vs rexpy's, on random and exhaustive-small character sets."""
+    import itertools
+    import lib
+    if not ctx.model_ok:
+        return
+    rng = ctx.rng
+    pool = list('ab1^-]\\[.*+?(){}|$ _"\'/:;<=>@`!%,&~#') + ['\t', '\n', 'é', '٣']
+    cases = [''.join(c) for k in (0, 1, 2, 3) for c in itertools.permutations('^-]\\a', k)]
+    cases += [''.join(rng.choice(pool) for _ in range(rng.randint(0, 7))) for _ in range(n)]
+    payloads = []
+    for s in cases:
+        for full in (False, True):
+            for inner in (False, True):
+                payloads.append([full, inner, s])
+    outs = ctx.model.call_many(20, payloads)
+    for (full, inner, s), o in zip(payloads, outs):
+        got = (lib.dstr(o[0]), lib.dstr(o[1]))
+        want = (rx.escape(s, full=full), rx.escaped_bracket(s, inner=inner))
+        if got != want:
+            ctx.mismatch('escape', {'s': s, 'full': full, 'inner': inner}, got, want)
+    ctx.cov['evaluations'] += len(payloads)
